@@ -16,6 +16,10 @@ CHECKS = {
    text="TLC explores the decoder step machine of spec/EslCodec.tla over every (stream, filler, cut) case of the near-miss space (field relations of ListSize/HeaderSize/SignatureSize, unsupported types, truncation points, trailing bytes, good neighbours), checks AcceptSound and NoSilentTruncation as invariants and emits the three-valued expectation of each case; every case is concretised and decoded by the real code, which must reject what the specification rejects and decode faithfully what it accepts. Byte-level mutations of real fixtures are projected back to abstract cases and judged by TLC.",
    note="Trusted: TLC, harness concretiser + independent reader (cross-checked against each other per case). MAY zone: hdrsize != 0, zero-count lists, externally-managed size != 17. Quick: boundary cut points (~117k cases); thorough: every cut point (~2.3M cases).",
    technique="TLA+ decoder spec model-checked with TLC; TLC-enumerated cases with expectations executed on the code; observations judged by TLC"),
+ "C11": dict(level="model_checking", ref="5/C11",
+   text="spec/EfiVarFs.tla defines WriteCalls (the exact FS-grain refinement of an API write) and TLC checks OneWrite/NoTruncExcl on the bounded model; the real WriteVar/GetVar/GetVarWithAttributes and the legacy attributes.* twin are driven over a recording afero.Fs for every predefined definition and synthetic (name, GUID, mask) definitions, as long shuffled sequences on one wrapper object; the recorded API + FS events are validated by TLC against spec/EfiVarIoTrace.tla (exactly OpenFile(WRONLY|CREATE[,APPEND iff APPEND_WRITE], no TRUNC/EXCL); one Write of LE32(attrs)++value; Close; nothing else; reads: absent/short -> error, subset test before decoding, value and stored attributes returned).",
+   note="Trusted: TLC, the recording Fs wrapper, the harness's own GUID text formatter and attribute decoding. Other open-flag bits and the read side's FS call sequence (beyond being read-only on that file) are not constrained. Quick: 43 synthetic masks; thorough: all 256.",
+   technique="TLA+ refinement spec; events recorded from the code over a recording file system validated by a TLC trace spec"),
  "C12": dict(level="model_checking", ref="5/C12",
    text="spec/EfiVarFs.tla models the variable store at API and file-system grain; TLC checks the Register / ReadsLastWrite invariants under replace-on-write semantics (and, as a vacuity guard, that they fail under plain-overwrite semantics). Every API-grain history TLC generates (plain and signed writes of growing, shrinking, empty and prefix-related values, reads; exhaustive to depth 2 quick / 3 thorough, -simulate and seeded random histories beyond, a third on pre-populated stores) runs on the real testfs store; the recorded events are validated by TLC against spec/EfiVarFsTrace.tla (a read returns the identity of the last completed write).",
    note="Trusted: TLC, identification of read-back bytes by comparison with the concretised values and the harness's independent descriptor reader. Bounded universe: 3 variables (6 in random histories), 5 values.",
